@@ -51,7 +51,7 @@ JOIN_TIMEOUT = 15   # seconds; a thread that does not finish is reported, never 
 
 KINDS = ['cookie', 'header', 'status', 'notfound', 'notallowed', 'badpath', 'badchunk', 'oversized',
          'badmultipart', 'crash', 'redirect', 'respcookie', 'static', 'echo', 'echo_empty', 'jsonerr', 'badvalue', 'badchunk_json',
-         'argsint', 'argsmut']
+         'argsint', 'argsmut', 'nopathinfo', 'nopathinfo_head']
 
 BOUND = ('histories r1..rk over %d request kinds (%s): every sequence of length k<=3 (quick) / k<=4 (thorough) with '
          'debug off on the building thread; additionally every sequence of length <=2 (quick) / <=3 (thorough) for '
@@ -204,6 +204,11 @@ def make_app(debug):
 
 def make_request(kind, rid):
     """A fresh environ for one request of `kind` carrying the identity `rid` wherever it can."""
+    if kind in ('nopathinfo', 'nopathinfo_head'):
+        # PEP 3333 lets a server omit PATH_INFO when it is empty: the request fails before the per-thread state is re-initialised
+        env = make_environ('/', 'HEAD' if kind.endswith('head') else 'GET', query='id=' + rid)
+        del env['PATH_INFO']
+        return env
     if kind == 'cookie':
         return make_environ('/ck/' + rid, query='id=' + rid)
     if kind == 'header':
